@@ -1,4 +1,4 @@
-/- Driver ops for JobShop.  Ops: job_shop.state, job_shop.step, job_shop.judge, job_shop.instance, job_shop.bounds -/
+/- Driver ops for JobShop.  Ops: job_shop.state, job_shop.step, job_shop.judge, job_shop.instance, job_shop.bounds, job_shop.toy -/
 import JumanjiModel.Bridge.Json
 import JumanjiModel.Env.JobShop.Model
 import JumanjiModel.Env.JobShop.Bounds
@@ -98,7 +98,18 @@ def opInstance : Op := fun j => do
               ("durations_in_range", jBool (decide (DurationsOK cfg s))),
               ("padding_consistent", jBool (decide (PaddingOK cfg s))),
               ("initial_state", jBool (decide (s = initState cfg s.mid s.dur))),
-              ("invariant", jBool (decide (Inv cfg s)))])
+              ("invariant", jBool (decide (Inv cfg s))),
+              ("generate_cert", jBool (decide (GenCert cfg s)))])
+
+/-- {"cfg"} → the toy instance as the Lean model has it (`toyState`), the documented optimal action sequence
+(`toyActions`), and the model's replay of it: final state, return, makespan, is it a complete solution.  The adapter
+compares `state` with the implementation's `ToyGenerator` reset state and plays `actions` on the implementation
+(ties `Props.C10.jobshop_toy_ok` / `jobshop_toy_makespan_achieved` to the code). -/
+def opToy : Op := fun _ => do
+  let p := play toyCfg toyState toyActions
+  pure (jObj [("state", jState toyState), ("actions", jList jInts toyActions), ("final", jState p.1),
+              ("return", jRat p.2), ("makespan", jInt (makespan toyCfg p.1)),
+              ("solution", jBool (decide (IsSolution toyCfg p.1)))])
 
 def jBounds (t : Jm.OB.Table) : Json :=
   jObj (t.map fun e => (e.1, jObj [("lo", match e.2.1 with | some r => jRat r | none => Json.null),
@@ -111,5 +122,5 @@ def opBounds : Op := fun j => do
 
 def ops : List (String × Op) :=
   [("job_shop.step", opStep), ("job_shop.state", opState), ("job_shop.judge", opJudge),
-   ("job_shop.instance", opInstance), ("job_shop.bounds", opBounds)]
+   ("job_shop.instance", opInstance), ("job_shop.bounds", opBounds), ("job_shop.toy", opToy)]
 end Jb.JobShop
